@@ -9,6 +9,7 @@ Front end: the repo's AST (Select / Join / Union / ...).  Constants can be mappe
 the user's constants, LIMIT counts and the time-series window symbolic.
 """
 import itertools
+import copy
 import z3
 from mindsdb_sql.parser import ast as A
 
@@ -134,6 +135,7 @@ class Evaluator:
         self.var_binding = var_binding
         self.table_filter = table_filter
         self.assumptions = []       # side conditions under which the evaluation is well defined (e.g. distinct order keys)
+        self.null_order = 'low'     # engine default: NULL sorts as the smallest ('low': sqlite, mysql) or the largest value ('high': postgresql)
 
     # ---- expressions ----------------------------------------------------------------------------
     def lookup(self, ident, rel, row):
@@ -208,6 +210,13 @@ class Evaluator:
                 return self.or3(a, b)
             if op in ('=', '!=', '<>', '<', '<=', '>', '>='):
                 return self.cmp(op, a, b)
+            if op in ('like', 'not like'):
+                # strings are outside the value domain: LIKE gets a fixed, deliberately asymmetric meaning on the integer domain
+                # (value LIKE pattern := value > pattern, NULL if either is NULL); the sqlite replays install the same function
+                # (connect()), so models replay faithfully.  What matters for the properties is where the predicate is evaluated
+                # and with which operands in which order.
+                t = (a[1] > b[1]) if op == 'like' else z3.Not(a[1] > b[1])
+                return (z3.Or(a[0], b[0]), z3.If(t, 1, 0))
             if op in ('+', '-', '*'):
                 v = {'+': a[1] + b[1], '-': a[1] - b[1], '*': a[1] * b[1]}[op]
                 return (z3.Or(a[0], b[0]), v)
@@ -504,8 +513,9 @@ class Evaluator:
         return Rel(rel.cols, rows)
 
     def order_limit(self, q, out, src):
-        """LIMIT/OFFSET after ORDER BY.  Sort keys of present rows are assumed pairwise distinct and non-NULL (recorded in
-        self.assumptions: ties leave the answer to the engine's discretion and are outside the claim)."""
+        """ORDER BY / LIMIT / OFFSET.  NULL sort keys are ordered by the explicit NULLS FIRST/LAST of the key or, without one, by the
+        engine default self.null_order.  Key tuples of present rows are assumed pairwise distinct (recorded in self.assumptions:
+        ties leave the order to the engine's discretion and are outside the claim).  The rank of each row is kept in rel._ranks."""
         n = len(out.rows)
         if q.order_by:
             keys = []
@@ -526,25 +536,34 @@ class Evaluator:
                             srel.inner_width = getattr(src, 'inner_width', None)
                             c = self.expr(f, srel, src.rows[idx])
                     desc = str(ob.direction).upper() == 'DESC'
-                    ks.append((c, desc))
+                    nulls = str(getattr(ob, 'nulls', 'default')).upper()
+                    if 'FIRST' in nulls:
+                        nulls_first = True
+                    elif 'LAST' in nulls:
+                        nulls_first = False
+                    else:
+                        nulls_first = (not desc) if self.null_order == 'low' else desc
+                    ks.append((c, desc, nulls_first))
                 keys.append(ks)
 
+            def key_eq(ci, cj):
+                return z3.Or(z3.And(ci[0], cj[0]), z3.And(z3.Not(ci[0]), z3.Not(cj[0]), ci[1] == cj[1]))
+
             def before(i, j):
-                # row i sorts strictly before row j (lexicographic over keys)
+                # row i sorts strictly before row j (lexicographic over keys, NULL placement per key)
                 res = FALSE
                 eq = TRUE
-                for (ci, d), (cj, _) in zip(keys[i], keys[j]):
-                    lt = (ci[1] > cj[1]) if d else (ci[1] < cj[1])
+                for (ci, d, nf), (cj, _, _) in zip(keys[i], keys[j]):
+                    vlt = (ci[1] > cj[1]) if d else (ci[1] < cj[1])
+                    lt = z3.If(ci[0], z3.If(cj[0], FALSE, z3.BoolVal(nf)), z3.If(cj[0], z3.BoolVal(not nf), vlt))
                     res = z3.Or(res, z3.And(eq, lt))
-                    eq = z3.And(eq, ci[1] == cj[1])
+                    eq = z3.And(eq, key_eq(ci, cj))
                 return res
             for i in range(n):
                 for j in range(i + 1, n):
                     both = z3.And(out.rows[i][0], out.rows[j][0])
-                    distinct_keys = z3.Or([ki[0][1] != kj[0][1] for ki, kj in zip(keys[i], keys[j])])
+                    distinct_keys = z3.Or([z3.Not(key_eq(ki[0], kj[0])) for ki, kj in zip(keys[i], keys[j])])
                     self.assumptions.append(z3.Implies(both, distinct_keys))
-                for (c, d) in keys[i]:
-                    self.assumptions.append(z3.Implies(out.rows[i][0], z3.Not(c[0])))
             ranks = [z3.Sum([z3.If(z3.And(out.rows[j][0], before(j, i)), 1, 0) for j in range(n) if j != i]) if n > 1 else z3.IntVal(0)
                      for i in range(n)]
         else:
@@ -578,10 +597,24 @@ class Evaluator:
         raise Unsupported('limit %s' % node)
 
     def setop(self, q, outer=None):
+        """A trailing ORDER BY / LIMIT / OFFSET of `A <op> B ORDER BY .. LIMIT ..` belongs to the whole set operation; the repo's
+        parser hangs it on the last member select (and drops parentheses around members), so a last member *Select* that carries
+        one is read the way the tree's own text reads: applied to the combined rows, column names taken from the first member."""
+        right, tail = q.right, None
+        if isinstance(right, A.Select) and (right.order_by or right.limit is not None or right.offset is not None):
+            tail = right
+            right = copy.copy(right)
+            right.order_by, right.limit, right.offset = None, None, None
         l = self.query(q.left, outer)
-        r = self.query(q.right, outer)
+        r = self.query(right, outer)
         if l.width() != r.width():
             raise Unsupported('set operation arity')
+        out = self._setop_rows(q, l, r)
+        if tail is not None:
+            out = self.order_limit(tail, out, None)
+        return out
+
+    def _setop_rows(self, q, l, r):
         if isinstance(q, A.Union):
             both = Rel(l.cols, l.rows + r.rows)
             return self.distinct(both) if q.unique else both
@@ -636,9 +669,16 @@ def fix_db(db, data):
     return cs
 
 
-def sqlite_rows(sql, schema, data):
+def connect():
+    """sqlite3 connection whose LIKE has the meaning SYMREL gives it on the integer domain"""
     import sqlite3
     con = sqlite3.connect(':memory:')
+    con.create_function('like', 2, lambda pattern, value: None if pattern is None or value is None else int(value > pattern), deterministic=True)
+    return con
+
+
+def sqlite_rows(sql, schema, data):
+    con = connect()
     for t, cols in schema.items():
         con.execute('CREATE TABLE %s (%s)' % (t, ', '.join('%s INTEGER' % c for c in cols)))
         for r in data.get(t, []):
@@ -674,8 +714,11 @@ def validate_query(ast_query, sql_for_sqlite, schema, R, D, rnd, n=3, ordered=Fa
             want = sqlite_rows(sql_for_sqlite, schema, data)
         except Exception as e:  # noqa
             return 0, [], 'sqlite: %s' % e
-        if ordered and hasattr(rel, '_ranks'):
-            pass
+        if getattr(rel, '_unordered_limit', False):
+            # LIMIT without ORDER BY: which rows are returned is the engine's choice; only their number is comparable
+            if len(got) != len(want):
+                bad.append((data, got, want))
+            continue
         if sorted(map(repr, got)) != sorted(map(repr, want)):
             bad.append((data, got, want))
     return n, bad, None
